@@ -267,6 +267,18 @@ retry:
         if (check_status == status::OK_RETRY_AFTER_FB) {
             goto retry; // NOLINT
         }
+        if constexpr (!is_inlinable<ValueType>()) {
+            if (kl <= sizeof(key_slice_type) && vp == nullptr) {
+                /**
+                 * A concurrent remove cleared this slot but has not removed it from the
+                 * permutation yet, and remove does not change the node version.
+                 * Read this border again: the version check of the next round waits until the
+                 * remove has finished, and after that the entry is no longer in the permutation.
+                 */
+                clean_up_tuple_list_nvc();
+                goto retry; // NOLINT
+            }
+        }
         if (kl > sizeof(key_slice_type)) {
             std::string_view arg_l_key;
             scan_endpoint arg_l_end{};
